@@ -247,7 +247,16 @@ Lemma par_none : forall k l, par k l None.
 Proof. intros k l p H. discriminate. Qed.
 
 (* what the cache holds after the log [l] was handed to it (possibly reset in between) *)
-Record RI (l : list pkt) (ca : rcache) : Prop := {
+(* [go]: the cache_gop setting of the stream *)
+Definition gop_shape (g : list pkt) : Prop :=
+  match g with
+  | [] => True
+  | k :: r => p_key k = true /\ forall q, In q r -> p_key q = false
+  end.
+
+Record RI (go : bool) (l : list pkt) (ca : rcache) : Prop := {
+  ri_flag : rc_gopon ca = go;
+  ri_head : gop_shape (rc_gop ca);
   ri_vps : par 5 l (rc_vps ca);
   ri_sps : par 3 l (rc_sps ca);
   ri_pps : par 4 l (rc_pps ca);
@@ -257,9 +266,11 @@ Record RI (l : list pkt) (ca : rcache) : Prop := {
   ri_off : rc_gopon ca = false -> rc_gop ca = []
 }.
 
-Lemma RI_empty : forall l g, RI l (rc_empty g).
+Lemma RI_empty : forall l g, RI g l (rc_empty g).
 Proof.
   intros l g. constructor; cbn [rc_empty rc_vps rc_sps rc_pps rc_gop rc_gopon]; try apply par_none.
+  - reflexivity.
+  - exact I.
   - apply LtsFanoutProofs.sub_nil.
   - intros p [].
   - left; reflexivity.
@@ -269,47 +280,52 @@ Qed.
 Lemma since_grow_nokey : forall l p, p_key p = false -> since (l ++ [p]) = S (since l).
 Proof. intros l p H. rewrite LtsBacklogProofs.since_snoc, H. reflexivity. Qed.
 
-Lemma RI_grow_same : forall l ca p, p_key p = false -> RI l ca -> RI (l ++ [p]) ca.
+Lemma RI_grow_same : forall go l ca p, p_key p = false -> RI go l ca -> RI go (l ++ [p]) ca.
 Proof.
-  intros l ca p Hk [Hv Hs Hp Hg Hm Hl Ho]. constructor; try (apply par_grow; assumption); try assumption.
+  intros go l ca p Hk [Hf Hh Hv Hs Hp Hg Hm Hl Ho]. constructor; try (apply par_grow; assumption); try assumption.
   - apply subseq_grow. exact Hg.
   - destruct Hl as [Hl|Hl]; [left; exact Hl|right]. rewrite since_grow_nokey by exact Hk. lia.
 Qed.
 
-Lemma RI_add : forall l ca p, RI l ca -> RI (l ++ [p]) (rc_add ca p).
+Lemma RI_add : forall go l ca p, RI go l ca -> RI go (l ++ [p]) (rc_add ca p).
 Proof.
-  intros l ca p HR.
+  intros go l ca p HR.
   destruct (Z.eq_dec (p_kind p) 0) as [K0|K0].
   { unfold rc_add. rewrite K0. apply RI_grow_same; [apply not_key; lia|exact HR]. }
   destruct (Z.eq_dec (p_kind p) 5) as [K5|K5].
   { assert (Hk : p_key p = false) by (apply not_key; lia).
-    pose proof (RI_grow_same l ca p Hk HR) as [Hv Hs Hp Hg Hm Hl Ho].
+    pose proof (RI_grow_same go l ca p Hk HR) as [Hf Hh Hv Hs Hp Hg Hm Hl Ho].
     unfold rc_add. rewrite K5. constructor; cbn [rc_vps rc_sps rc_pps rc_gop rc_gopon]; try assumption.
     apply par_set. exact K5. }
   destruct (Z.eq_dec (p_kind p) 3) as [K3|K3].
   { assert (Hk : p_key p = false) by (apply not_key; lia).
-    pose proof (RI_grow_same l ca p Hk HR) as [Hv Hs Hp Hg Hm Hl Ho].
+    pose proof (RI_grow_same go l ca p Hk HR) as [Hf Hh Hv Hs Hp Hg Hm Hl Ho].
     unfold rc_add. rewrite K3. constructor; cbn [rc_vps rc_sps rc_pps rc_gop rc_gopon]; try assumption.
     apply par_set. exact K3. }
   destruct (Z.eq_dec (p_kind p) 4) as [K4|K4].
   { assert (Hk : p_key p = false) by (apply not_key; lia).
-    pose proof (RI_grow_same l ca p Hk HR) as [Hv Hs Hp Hg Hm Hl Ho].
+    pose proof (RI_grow_same go l ca p Hk HR) as [Hf Hh Hv Hs Hp Hg Hm Hl Ho].
     unfold rc_add. rewrite K4. constructor; cbn [rc_vps rc_sps rc_pps rc_gop rc_gopon]; try assumption.
     apply par_set. exact K4. }
   rewrite rc_add_other by assumption. unfold rc_add_media.
   pose proof (kind_media p K0 K5 K3 K4) as Hmp.
   destruct (rc_gopon ca) eqn:Eg.
   - destruct (p_key p) eqn:Ek.
-    + destruct HR as [Hv Hs Hp Hg Hm Hl Ho].
+    + destruct HR as [Hf Hh Hv Hs Hp Hg Hm Hl Ho].
       constructor; cbn [rc_vps rc_sps rc_pps rc_gop rc_gopon]; try (apply par_grow; assumption).
+      * congruence.
+      * split; [exact Ek|intros q []].
       * apply (LtsFanoutProofs.subseq_app_r _ l [p]).
       * intros q [<-|[]]. exact Hmp.
       * right. cbn [length]. lia.
       * discriminate.
     + destruct (rc_gop ca) as [|g0 gs] eqn:Egop.
       * apply RI_grow_same; assumption.
-      * destruct HR as [Hv Hs Hp Hg Hm Hl Ho].
+      * destruct HR as [Hf Hh Hv Hs Hp Hg Hm Hl Ho].
         constructor; cbn [rc_vps rc_sps rc_pps rc_gop rc_gopon]; try (apply par_grow; assumption).
+        -- congruence.
+        -- rewrite Egop in Hh. destruct Hh as [Hh1 Hh2]. cbn [app gop_shape]. split; [exact Hh1|].
+           intros q Hq. apply in_app_or in Hq. destruct Hq as [Hq|[<-|[]]]; [apply Hh2; exact Hq|exact Ek].
         -- rewrite Egop in Hg. apply subseq_snoc. exact Hg.
         -- intros q Hq. apply in_app_or in Hq. destruct Hq as [Hq|[<-|[]]]; [|exact Hmp].
            apply Hm. rewrite Egop. exact Hq.
@@ -319,31 +335,31 @@ Proof.
         -- discriminate.
   - destruct (p_key p) eqn:Ek.
     + (* the GOP cache is off: nothing is stored, whatever the key spacing *)
-      destruct HR as [Hv Hs Hp Hg Hm Hl Ho].
+      destruct HR as [Hf Hh Hv Hs Hp Hg Hm Hl Ho].
       constructor; try (apply par_grow; assumption); try assumption.
       * apply subseq_grow. exact Hg.
       * left. apply Ho. exact Eg.
     + apply RI_grow_same; assumption.
 Qed.
 
-Lemma RI_snap : forall l ca, RI l ca ->
+Lemma RI_snap : forall go l ca, RI go l ca ->
   rc_snap ca = opt_list (rc_vps ca) ++ opt_list (rc_sps ca) ++ opt_list (rc_pps ca) ++ rc_gop ca.
 Proof.
-  intros l ca HR. unfold rc_snap. destruct (rc_gopon ca) eqn:Eg; [reflexivity|].
-  rewrite (ri_off _ _ HR Eg). reflexivity.
+  intros go l ca HR. unfold rc_snap. destruct (rc_gopon ca) eqn:Eg; [reflexivity|].
+  rewrite (ri_off _ _ _ HR Eg). reflexivity.
 Qed.
 
 Lemma par_in : forall k l o x, par k l o -> In x (opt_list o) -> In x l /\ p_kind x = k.
 Proof. intros k l [q|] x H Hx; cbn in Hx; [|contradiction]. destruct Hx as [<-|[]]. apply H. reflexivity. Qed.
 
-Lemma RI_in : forall l ca x, RI l ca -> In x (rc_snap ca) -> In x l.
+Lemma RI_in : forall go l ca x, RI go l ca -> In x (rc_snap ca) -> In x l.
 Proof.
-  intros l ca x HR Hx. rewrite (RI_snap _ _ HR) in Hx.
+  intros go l ca x HR Hx. rewrite (RI_snap _ _ _ HR) in Hx.
   repeat (apply in_app_or in Hx; destruct Hx as [Hx|Hx]).
-  - eapply par_in; [apply (ri_vps _ _ HR)|exact Hx].
-  - eapply par_in; [apply (ri_sps _ _ HR)|exact Hx].
-  - eapply par_in; [apply (ri_pps _ _ HR)|exact Hx].
-  - eapply LtsFanoutProofs.subseq_In; [apply (ri_gop _ _ HR)|exact Hx].
+  - eapply par_in; [apply (ri_vps _ _ _ HR)|exact Hx].
+  - eapply par_in; [apply (ri_sps _ _ _ HR)|exact Hx].
+  - eapply par_in; [apply (ri_pps _ _ _ HR)|exact Hx].
+  - eapply LtsFanoutProofs.subseq_In; [apply (ri_gop _ _ _ HR)|exact Hx].
 Qed.
 
 Lemma nodup_id_inj : forall l a b,
@@ -372,22 +388,22 @@ Qed.
 Lemma nodup_opt : forall (o : option pkt), NoDup (opt_list o).
 Proof. intros [q|]; cbn; repeat constructor. intros []. Qed.
 
-Lemma RI_nodup : forall l ca, RI l ca -> NoDup (map p_id l) -> NoDup (map p_id (rc_snap ca)).
+Lemma RI_nodup : forall go l ca, RI go l ca -> NoDup (map p_id l) -> NoDup (map p_id (rc_snap ca)).
 Proof.
-  intros l ca HR Hnd.
+  intros go l ca HR Hnd.
   apply (nodup_map_id l); [exact Hnd|intros a Ha; eapply RI_in; eassumption|].
-  rewrite (RI_snap _ _ HR).
+  rewrite (RI_snap _ _ _ HR).
   assert (Hv : forall x, In x (opt_list (rc_vps ca)) -> p_kind x = 5%Z)
-    by (intros x Hx; eapply par_in; [apply (ri_vps _ _ HR)|exact Hx]).
+    by (intros x Hx; eapply par_in; [apply (ri_vps _ _ _ HR)|exact Hx]).
   assert (Hs : forall x, In x (opt_list (rc_sps ca)) -> p_kind x = 3%Z)
-    by (intros x Hx; eapply par_in; [apply (ri_sps _ _ HR)|exact Hx]).
+    by (intros x Hx; eapply par_in; [apply (ri_sps _ _ _ HR)|exact Hx]).
   assert (Hp : forall x, In x (opt_list (rc_pps ca)) -> p_kind x = 4%Z)
-    by (intros x Hx; eapply par_in; [apply (ri_pps _ _ HR)|exact Hx]).
+    by (intros x Hx; eapply par_in; [apply (ri_pps _ _ _ HR)|exact Hx]).
   assert (Hg : forall x, In x (rc_gop ca) ->
                  p_kind x <> 0%Z /\ p_kind x <> 3%Z /\ p_kind x <> 4%Z /\ p_kind x <> 5%Z)
-    by (intros x Hx; apply media_kind, (ri_media _ _ HR), Hx).
+    by (intros x Hx; apply media_kind, (ri_media _ _ _ HR), Hx).
   assert (Hgn : NoDup (rc_gop ca)).
-  { eapply LtsFanoutProofs.subseq_NoDup; [apply (ri_gop _ _ HR)|].
+  { eapply LtsFanoutProofs.subseq_NoDup; [apply (ri_gop _ _ _ HR)|].
     apply (NoDup_map_inv p_id). exact Hnd. }
   apply LtsFanoutProofs.NoDup_app_intro; [apply nodup_opt| |].
   - apply LtsFanoutProofs.NoDup_app_intro; [apply nodup_opt| |].
@@ -406,46 +422,48 @@ Qed.
 Lemma opt_len : forall (o : option pkt), length (opt_list o) <= 1.
 Proof. intros [q|]; cbn; lia. Qed.
 
-Lemma RI_len : forall l ca, RI l ca -> length (rc_snap ca) <= 3 + S (since l).
+Lemma RI_len : forall go l ca, RI go l ca -> length (rc_snap ca) <= 3 + S (since l).
 Proof.
-  intros l ca HR. rewrite (RI_snap _ _ HR), !app_length.
+  intros go l ca HR. rewrite (RI_snap _ _ _ HR), !app_length.
   pose proof (opt_len (rc_vps ca)). pose proof (opt_len (rc_sps ca)). pose proof (opt_len (rc_pps ca)).
-  destruct (ri_len _ _ HR) as [E|E]; [rewrite E; cbn [length]|]; lia.
+  destruct (ri_len _ _ _ HR) as [E|E]; [rewrite E; cbn [length]|]; lia.
 Qed.
 
 (* ---- the same facts for every join replay of a reachable state ---- *)
 
 (* a replay is the snapshot of a cache that had been handed a prefix of the current log *)
-Definition PR (l pre : list pkt) : Prop :=
-  exists l0 rest ca, l = l0 ++ rest /\ RI l0 ca /\ pre = rc_snap ca.
-Definition PI (s : lstate) : Prop :=
-  RI (s_cached s) (s_cache s) /\ forall c, PR (s_cached s) (c_prefill (s_cs s c)).
+Definition PR (go : bool) (l pre : list pkt) : Prop :=
+  exists l0 rest ca, l = l0 ++ rest /\ RI go l0 ca /\ pre = rc_snap ca.
+Definition PI (go : bool) (s : lstate) : Prop :=
+  RI go (s_cached s) (s_cache s) /\ forall c, PR go (s_cached s) (c_prefill (s_cs s c)).
 
-Lemma PR_grow : forall l pre p, PR l pre -> PR (l ++ [p]) pre.
+Lemma PR_grow : forall go l pre p, PR go l pre -> PR go (l ++ [p]) pre.
 Proof.
-  intros l pre p (l0 & rest & ca & -> & HR & ->). exists l0, (rest ++ [p]), ca.
+  intros go l pre p (l0 & rest & ca & -> & HR & ->). exists l0, (rest ++ [p]), ca.
   rewrite app_assoc. auto.
 Qed.
 
-Lemma PR_snap : forall l ca, RI l ca -> PR l (rc_snap ca).
-Proof. intros l ca HR. exists l, [], ca. rewrite app_nil_r. auto. Qed.
+Lemma PR_snap : forall go l ca, RI go l ca -> PR go l (rc_snap ca).
+Proof. intros go l ca HR. exists l, [], ca. rewrite app_nil_r. auto. Qed.
 
-Lemma PR_nil : forall l, PR l [].
-Proof. intros l. exists [], l, (rc_empty false). split; [reflexivity|]. split; [apply RI_empty|reflexivity]. Qed.
-
-Lemma PI_ext : forall s s' : lstate, PI s ->
-  s_cached s' = s_cached s -> s_cache s' = s_cache s ->
-  (forall c, c_prefill (s_cs s' c) = c_prefill (s_cs s c)) -> PI s'.
+Lemma PR_nil : forall go l, PR go l [].
 Proof.
-  intros s s' [H1 H2] E1 E2 E3. split; [rewrite E1, E2; exact H1|].
+  intros go l. exists [], l, (rc_empty go). split; [reflexivity|]. split; [apply RI_empty|destruct go; reflexivity].
+Qed.
+
+Lemma PI_ext : forall go (s s' : lstate), PI go s ->
+  s_cached s' = s_cached s -> s_cache s' = s_cache s ->
+  (forall c, c_prefill (s_cs s' c) = c_prefill (s_cs s c)) -> PI go s'.
+Proof.
+  intros go s s' [H1 H2] E1 E2 E3. split; [rewrite E1, E2; exact H1|].
   intros c. rewrite E1, E3. apply H2.
 Qed.
 
-Lemma PI_reset : forall (s s' : lstate) g, PI s ->
+Lemma PI_reset : forall g (s s' : lstate), PI g s ->
   s_cached s' = s_cached s -> s_cache s' = rc_empty g ->
-  (forall c, c_prefill (s_cs s' c) = c_prefill (s_cs s c)) -> PI s'.
+  (forall c, c_prefill (s_cs s' c) = c_prefill (s_cs s c)) -> PI g s'.
 Proof.
-  intros s s' g [H1 H2] E1 E2 E3. split; [rewrite E2; apply RI_empty|].
+  intros g s s' [H1 H2] E1 E2 E3. split; [rewrite E2; apply RI_empty|].
   intros c. rewrite E1, E3. apply H2.
 Qed.
 
@@ -481,10 +499,10 @@ Proof.
   intros f c k' c' H. unfold upd. destruct (Nat.eqb_spec c c') as [<-|Hne]; [exact H|reflexivity].
 Qed.
 
-Lemma after_acquire_PI : forall (s : lstate) h lq,
-  PI s -> PI (after_acquire rcache rc_add rc_snap s h lq).
+Lemma after_acquire_PI : forall go (s : lstate) h lq,
+  PI go s -> PI go (after_acquire rcache rc_add rc_snap s h lq).
 Proof.
-  intros s h lq [H1 H2]. unfold after_acquire. destruct h as [|c].
+  intros go s h lq [H1 H2]. unfold after_acquire. destruct h as [|c].
   - destruct (s_todo s) as [|p rest]; [split; assumption|].
     unfold set_core. split; cbn [s_cached s_cache s_cs].
     + apply RI_add. exact H1.
@@ -494,22 +512,22 @@ Proof.
     cbn [c_prefill]. apply PR_snap. exact H1.
 Qed.
 
-Lemma acquire_PI : forall (s : lstate) h, PI s -> PI (acquire fixed rcache rc_add rc_snap s h).
+Lemma acquire_PI : forall go (s : lstate) h, PI go s -> PI go (acquire fixed rcache rc_add rc_snap s h).
 Proof.
-  intros s h H. unfold acquire. cbn [v_lock fixed].
+  intros go s h H. unfold acquire. cbn [v_lock fixed].
   destruct (s_lock s); [|apply after_acquire_PI; exact H].
   destruct h; (eapply PI_ext; [exact H|reflexivity|reflexivity|intros c'; reflexivity]).
 Qed.
 
-Lemma release_PI : forall (s : lstate), PI s -> PI (release fixed rcache rc_add rc_snap s).
+Lemma release_PI : forall go (s : lstate), PI go s -> PI go (release fixed rcache rc_add rc_snap s).
 Proof.
-  intros s H. unfold release. cbn [v_lock fixed].
+  intros go s H. unfold release. cbn [v_lock fixed].
   destruct (s_lockq s); [|apply after_acquire_PI; exact H].
   eapply PI_ext; [exact H|reflexivity|reflexivity|intros c; reflexivity].
 Qed.
 
 Lemma step_PI : forall g maxq n pa (s s' : lstate) t,
-  PI s -> step fixed maxq rcache (rc_empty g) rc_add rc_snap n pa s t = Some s' -> PI s'.
+  PI g s -> step fixed maxq rcache (rc_empty g) rc_add rc_snap n pa s t = Some s' -> PI g s'.
 Proof.
   intros g maxq n pa s s' t H Hst. destruct t as [| |c|c|c]; cbn [step] in Hst.
   - (* publisher *)
@@ -567,7 +585,7 @@ Proof.
       apply pf_upd. cbn [v_atomic fixed]. rewrite pf_finish. apply pf_close.
 Qed.
 
-Lemma init_PI : forall g pkts stoppers, PI (init rcache (rc_empty g) pkts stoppers).
+Lemma init_PI : forall g pkts stoppers, PI g (init rcache (rc_empty g) pkts stoppers).
 Proof.
   intros g pkts stoppers. split; cbn [init s_cached s_cache s_cs].
   - apply RI_empty.
@@ -575,10 +593,10 @@ Proof.
 Qed.
 
 Lemma reachable_PI : forall g maxq n pa pkts stoppers sched,
-  PI (run fixed maxq rcache (rc_empty g) rc_add rc_snap n pa sched (init rcache (rc_empty g) pkts stoppers)).
+  PI g (run fixed maxq rcache (rc_empty g) rc_add rc_snap n pa sched (init rcache (rc_empty g) pkts stoppers)).
 Proof.
   intros g maxq n pa pkts stoppers sched.
-  apply (LtsFanoutProofs.inv_run maxq rcache (rc_empty g) rc_add rc_snap n pa PI).
+  apply (LtsFanoutProofs.inv_run maxq rcache (rc_empty g) rc_add rc_snap n pa (PI g)).
   - intros s t s' H Hst. eapply step_PI; eassumption.
   - apply init_PI.
 Qed.
@@ -602,12 +620,35 @@ Proof.
     exists rest. rewrite Hp, Ec, Et, <- app_assoc. reflexivity.
 Qed.
 
-(* the three facts about a join replay, for the final state of a case *)
+(* the shape of a join replay: [VPS] [SPS] [PPS], then (GOP cache on) a key-frame start followed by
+   video packets that do not start a key frame, in published order *)
+Definition shape (go : bool) (pkts pre : list pkt) : Prop :=
+  exists v s p g, pre = opt_list v ++ opt_list s ++ opt_list p ++ g /\
+    par 5 pkts v /\ par 3 pkts s /\ par 4 pkts p /\ subseq g pkts /\
+    (forall q, In q g -> is_media q = true) /\ gop_shape g /\ (g <> [] -> go = true).
+
+Lemma par_app : forall k l o r, par k l o -> par k (l ++ r) o.
+Proof. intros k l o r H q Hq. destruct (H q Hq) as [H1 H2]. split; [apply in_or_app; left|]; assumption. Qed.
+
+Lemma RI_shape : forall go l ca r, RI go l ca -> shape go (l ++ r) (rc_snap ca).
+Proof.
+  intros go l ca r HR. exists (rc_vps ca), (rc_sps ca), (rc_pps ca), (rc_gop ca).
+  split; [apply (RI_snap _ _ _ HR)|].
+  split; [apply par_app, (ri_vps _ _ _ HR)|]. split; [apply par_app, (ri_sps _ _ _ HR)|].
+  split; [apply par_app, (ri_pps _ _ _ HR)|].
+  split; [eapply LtsFanoutProofs.subseq_trans; [apply (ri_gop _ _ _ HR)|apply LtsFanoutProofs.subseq_app_l]|].
+  split; [apply (ri_media _ _ _ HR)|]. split; [apply (ri_head _ _ _ HR)|].
+  intros Hne. rewrite <- (ri_flag _ _ _ HR). destruct (rc_gopon ca) eqn:Eg; [reflexivity|].
+  exfalso. apply Hne. apply (ri_off _ _ _ HR Eg).
+Qed.
+
+(* the facts about a join replay, for the final state of a case *)
 Lemma prefill_facts : forall c, l_var c = fixed -> forall i,
   let k := s_cs (lrun c) i in
   (forall x, In x (c_prefill k) -> In x (l_pkts c)) /\
   (NoDup (map p_id (l_pkts c)) -> NoDup (map p_id (c_prefill k))) /\
-  (forall G, gap_ok G (l_pkts c) = true -> length (c_prefill k) <= 3 + G).
+  (forall G, gap_ok G (l_pkts c) = true -> length (c_prefill k) <= 3 + G) /\
+  shape (l_gop c) (l_pkts c) (c_prefill k).
 Proof.
   intros c Hv i k. pose proof (lrun_fixed c Hv) as Hs.
   destruct (cached_prefix (l_gop c) (l_maxq c) (l_n c) (pan c) (l_pkts c) (stp c) (l_sched c)) as [rest Hpre].
@@ -615,15 +656,16 @@ Proof.
   rewrite <- Hs in Hpre, HP.
   destruct (HP i) as (l0 & rest0 & ca & El & HR & Epre). fold k in Epre.
   assert (Epk : l_pkts c = l0 ++ (rest0 ++ rest)) by (rewrite Hpre, El, <- app_assoc; reflexivity).
-  split; [|split].
+  split; [|split; [|split]].
   - intros x Hx. rewrite Epre in Hx. rewrite Epk. apply in_or_app. left. eapply RI_in; eassumption.
-  - intros Hnd. rewrite Epre. apply (RI_nodup l0); [exact HR|].
+  - intros Hnd. rewrite Epre. apply (RI_nodup (l_gop c) l0); [exact HR|].
     rewrite Epk, map_app in Hnd.
     eapply LtsFanoutProofs.subseq_NoDup; [apply LtsFanoutProofs.subseq_app_l|exact Hnd].
   - intros G HG. rewrite Epre.
-    pose proof (RI_len _ _ HR) as Hlen.
+    pose proof (RI_len _ _ _ HR) as Hlen.
     pose proof (LtsBacklogProofs.gap_ok_prefix G (l_pkts c) l0 (rest0 ++ rest) HG Epk) as Hsince.
     lia.
+  - rewrite Epre, Epk. apply RI_shape. exact HR.
 Qed.
 
 (* ------------------------------------------------------------------ *)
@@ -717,12 +759,109 @@ Proof.
   - rewrite Nat.min_r by exact H. rewrite skipn_all, skipn_all2 by exact H. reflexivity.
 Qed.
 
+(* ---- the delivered part of a join replay passes [replay_ok] ---- *)
+Definition strip_kindP (k : Z) (l : list pkt) : list pkt :=
+  match l with
+  | [] => []
+  | x :: l' => if (p_kind x =? k)%Z then l' else l
+  end.
+
+Lemma kind_of_id : forall pkts a,
+  NoDup (map p_id pkts) -> In a pkts -> kind_of pkts (p_id a) = p_kind a.
+Proof.
+  unfold kind_of. induction pkts as [|p pkts IH]; intros a Hnd Ha; [contradiction|].
+  cbn [find]. destruct (Z.eqb_spec (p_id p) (p_id a)) as [E|E].
+  - assert (p = a) as -> by (apply (nodup_id_inj (p :: pkts)); auto using in_eq). reflexivity.
+  - destruct Ha as [->|Ha]; [congruence|].
+    apply IH; [cbn [map] in Hnd; inversion Hnd; assumption|exact Ha].
+Qed.
+
+Lemma strip_map : forall pkts k X,
+  NoDup (map p_id pkts) -> (forall a, In a X -> In a pkts) ->
+  strip_kind pkts k (map p_id X) = map p_id (strip_kindP k X).
+Proof.
+  intros pkts k X Hnd Hin. destruct X as [|x X]; [reflexivity|].
+  cbn [map strip_kind strip_kindP]. rewrite kind_of_id by (auto using in_eq).
+  destruct (p_kind x =? k)%Z; reflexivity.
+Qed.
+
+Lemma strip_incl : forall k X a, In a (strip_kindP k X) -> In a X.
+Proof.
+  intros k X a. destruct X as [|x X]; cbn [strip_kindP]; [auto|].
+  destruct (p_kind x =? k)%Z; auto using in_cons.
+Qed.
+
+Definition prefix (X Y : list pkt) : Prop := exists r, Y = X ++ r.
+
+Lemma strip_prefix : forall k l o R X,
+  par k l o -> (forall x, In x R -> p_kind x <> k) ->
+  prefix X (opt_list o ++ R) -> prefix (strip_kindP k X) R.
+Proof.
+  intros k l o R X Hpar HR [r E]. destruct o as [q|]; cbn [opt_list app] in E.
+  - destruct X as [|x X]; [exists R; reflexivity|]. cbn [app] in E. inversion E; subst.
+    cbn [strip_kindP]. destruct (Hpar x eq_refl) as [_ Hk]. rewrite Hk, Z.eqb_refl.
+    exists r. reflexivity.
+  - destruct X as [|x X]; [exists R; reflexivity|]. cbn [strip_kindP].
+    destruct (Z.eqb_spec (p_kind x) k) as [Hk|Hk]; [|exists r; exact E].
+    exfalso. apply (HR x); [rewrite E; left; reflexivity|exact Hk].
+Qed.
+
+Lemma replay_ok_shape : forall go pkts pre X,
+  NoDup (map p_id pkts) -> shape go pkts pre -> prefix X pre -> (forall a, In a X -> In a pkts) ->
+  replay_ok pkts go (map p_id pkts) (map p_id X) = true.
+Proof.
+  intros go pkts pre X Hnd (v & s & p & g & Epre & Hv & Hs & Hp & Hg & Hm & Hh & Hgo) Hpx Hin.
+  assert (Hkg : forall x, In x g ->
+                  p_kind x <> 0%Z /\ p_kind x <> 3%Z /\ p_kind x <> 4%Z /\ p_kind x <> 5%Z)
+    by (intros x Hx; apply media_kind, Hm, Hx).
+  assert (Hks : forall x, In x (opt_list s) -> p_kind x = 3%Z)
+    by (intros x Hx; eapply par_in; [exact Hs|exact Hx]).
+  assert (Hkp : forall x, In x (opt_list p) -> p_kind x = 4%Z)
+    by (intros x Hx; eapply par_in; [exact Hp|exact Hx]).
+  set (X1 := strip_kindP 5 X). set (X2 := strip_kindP 3 X1). set (X3 := strip_kindP 4 X2).
+  assert (Hin1 : forall a, In a X1 -> In a pkts) by (intros a Ha; apply Hin, (strip_incl 5), Ha).
+  assert (Hin2 : forall a, In a X2 -> In a pkts) by (intros a Ha; apply Hin1, (strip_incl 3), Ha).
+  assert (Hin3 : forall a, In a X3 -> In a pkts) by (intros a Ha; apply Hin2, (strip_incl 4), Ha).
+  assert (P1 : prefix X1 (opt_list s ++ opt_list p ++ g)).
+  { apply (strip_prefix 5 pkts v); [exact Hv| |rewrite <- Epre; exact Hpx].
+    intros x Hx. repeat (apply in_app_or in Hx; destruct Hx as [Hx|Hx]).
+    - apply Hks in Hx. lia.
+    - apply Hkp in Hx. lia.
+    - apply Hkg in Hx. lia. }
+  assert (P2 : prefix X2 (opt_list p ++ g)).
+  { apply (strip_prefix 3 pkts s); [exact Hs| |exact P1].
+    intros x Hx. apply in_app_or in Hx; destruct Hx as [Hx|Hx].
+    - apply Hkp in Hx. lia.
+    - apply Hkg in Hx. lia. }
+  assert (P3 : prefix X3 g).
+  { apply (strip_prefix 4 pkts p); [exact Hp| |exact P2]. intros x Hx. apply Hkg in Hx. lia. }
+  unfold replay_ok.
+  rewrite (strip_map pkts 5 X Hnd Hin). fold X1.
+  rewrite (strip_map pkts 3 X1 Hnd Hin1). fold X2.
+  rewrite (strip_map pkts 4 X2 Hnd Hin2). fold X3.
+  destruct X3 as [|x X3'] eqn:E3; [reflexivity|].
+  destruct P3 as [r Er]. cbn [app] in Er.
+  assert (Hgne : g <> []) by (rewrite Er; discriminate).
+  rewrite Er in Hh. destruct Hh as [Hkx Hnk].
+  cbn [map gop_ok]. rewrite !andb_true_iff. repeat split.
+  - apply Hgo. exact Hgne.
+  - rewrite kind_of_id by (auto using in_eq). exact Hkx.
+  - apply forallb_forall. intros y Hy. apply in_map_iff in Hy. destruct Hy as (b & <- & Hb).
+    rewrite kind_of_id by (auto using in_cons).
+    apply andb_true_iff. split.
+    + apply (Hm b). rewrite Er. right. apply in_or_app. left. exact Hb.
+    + apply negb_true_iff. apply (Hnk b). apply in_or_app. left. exact Hb.
+  - apply subseqZ_complete. apply (LtsFanoutProofs.subseq_map _ _ p_id (x :: X3') pkts).
+    eapply LtsFanoutProofs.subseq_trans; [|exact Hg].
+    rewrite Er. apply (LtsFanoutProofs.subseq_app_l _ (x :: X3') r).
+Qed.
+
 (* what one consumer was handed passes the stream oracle *)
 Lemma stream_ok : forall c, l_var c = fixed -> NoDup (map p_id (l_pkts c)) -> forall i,
-  ok_stream (map p_id (l_pkts c)) (map p_id (c_out (s_cs (lrun c) i))) = true.
+  ok_stream (l_pkts c) (l_gop c) (map p_id (l_pkts c)) (map p_id (c_out (s_cs (lrun c) i))) = true.
 Proof.
   intros c Hv Hnd i. pose proof (lrun_fixed c Hv) as Hs.
-  destruct (prefill_facts c Hv i) as (Hpin & Hpnd & _).
+  destruct (prefill_facts c Hv i) as (Hpin & Hpnd & _ & Hshape).
   set (s := lrun c) in *. set (k := s_cs s i) in *.
   pose proof (LtsFanoutProofs.delivered_prefix_of_pushed (l_maxq c) rcache (rc_empty (l_gop c)) rc_add
                 rc_snap (l_n c) (pan c) (l_pkts c) (stp c) (l_sched c) i) as F1.
@@ -747,13 +886,12 @@ Proof.
   fold k in F1, F2, F3, F4, F6, F7, F8.
   destruct F1 as [rest F1]. destruct F2 as [F2 _]. destruct F5 as [rest' F5].
   set (n := length (c_prefill k)).
-  (* the first n delivered packets come from the replay *)
+  (* the first n delivered packets are the beginning of the replay *)
+  assert (E : c_prefill k = firstn n (c_out k) ++ firstn (n - length (c_out k)) rest).
+  { rewrite <- firstn_app, <- F1, F2, firstn_app. unfold n.
+    rewrite firstn_all, Nat.sub_diag, firstn_O, app_nil_r. reflexivity. }
   assert (Hpre : forall a, In a (firstn n (c_out k)) -> In a (c_prefill k)).
-  { intros a Ha.
-    assert (E : c_prefill k = firstn n (c_out k) ++ firstn (n - length (c_out k)) rest).
-    { rewrite <- firstn_app, <- F1, F2, firstn_app. unfold n.
-      rewrite firstn_all, Nat.sub_diag, firstn_O, app_nil_r. reflexivity. }
-    rewrite E. apply in_or_app. left. exact Ha. }
+  { intros a Ha. rewrite E. apply in_or_app. left. exact Ha. }
   assert (Hlive : LtsFanoutProofs.live_out k = skipn n (c_out k)) by reflexivity.
   unfold ok_stream. rewrite !andb_true_iff. repeat split.
   - apply nodupZ_NoDup. apply F7; [exact Hnd|apply Hpnd; exact Hnd].
@@ -765,7 +903,10 @@ Proof.
   - apply existsb_exists. exists (Nat.min n (length (map p_id (c_out k)))). split.
     + apply in_seq. lia.
     + unfold split_ok. rewrite firstn_min_len, skipn_min_len, firstn_map, skipn_map, <- Hlive.
-      apply andb_true_iff. split.
+      rewrite !andb_true_iff. repeat split.
+      * apply (replay_ok_shape (l_gop c) (l_pkts c) (c_prefill k)); [exact Hnd|exact Hshape| |].
+        -- eexists. exact E.
+        -- intros a Ha. apply Hpin, Hpre, Ha.
       * apply subseqZ_complete. apply LtsFanoutProofs.subseq_map.
         eapply LtsFanoutProofs.subseq_trans; [exact F4|]. rewrite F5. apply LtsFanoutProofs.subseq_app_l.
       * apply forallb_forall. intros x Hx. apply forallb_forall. intros y Hy. apply Nat.ltb_lt.
@@ -840,7 +981,7 @@ Proof.
     + unfold cobs_of. cbn [o_reg o_qlen]. destruct (c_reg (s_cs (lrun c) i)); [|reflexivity].
       apply Z.leb_le. apply inj_le.
       specialize (Hbl i (gap_least_ok (l_pkts c))).
-      destruct (prefill_facts c Hv i) as (_ & _ & Hlen).
+      destruct (prefill_facts c Hv i) as (_ & _ & Hlen & _).
       specialize (Hlen _ (gap_least_ok (l_pkts c))). cbv zeta in Hlen.
       unfold backlog_limit.
       pose proof (Nat.max_le_compat_l _ _ (l_maxq c) Hlen). lia.
